@@ -25,6 +25,7 @@ type cliCase struct {
 	Kind  string // json | csv | tsv | lines | parquet
 	N     int
 	Stdin bool
+	Var   string
 }
 
 func cliCases(c *core.Ctx) []cliCase {
@@ -70,6 +71,13 @@ func cliCases(c *core.Ctx) []cliCase {
 			}
 			add(k, n, true)
 		}
+	}
+	// first-field files (firstfield.go), as files and on stdin; appended last: earlier ids unchanged
+	for v := 0; v < 4; v++ {
+		for _, k := range []string{"csv", "tsv"} {
+			cs = append(cs, cliCase{ID: fmt.Sprintf("clif-%s-%d", k, len(cs)), Kind: k, N: v, Var: "firstfield"})
+		}
+		cs = append(cs, cliCase{ID: fmt.Sprintf("clis-csv-%d", len(cs)), Kind: "csv", N: v + 4, Stdin: true, Var: "firstfield"})
 	}
 	return cs
 }
@@ -238,6 +246,11 @@ func runCLICase(c *core.Ctx, runner *cli.Runner, cs cliCase) *Result {
 		}
 		header := rng.Intn(4) != 0
 		f := fileh.GenCSVFile(rng, cs.N, fileh.CSVOpts{Sep: sep, Header: header, Plain: true})
+		if cs.Var == "firstfield" {
+			header = cs.N%2 == 0
+			f = genFirstFieldCSV(rng, sep, header, cs.N)
+			r.count(leg+"/"+cs.Kind+"/first_field_files", 1)
+		}
 		content = f.Content
 		if !header {
 			table = name + "?header=false"
